@@ -121,3 +121,10 @@ pub open spec fn script_locked(a: Address) -> bool {
         _ => false,
     }
 }
+
+/// representation invariant the pointer rules need (C10: no two script uses share a pointer, no redeemer points at an input that is not
+/// script-locked): an input has a witness-table entry only under the script hash it is registered with
+pub open spec fn wt_ok(b: TxInputsBuilder) -> bool {
+    forall|h: ScriptHash, i: TransactionInput| b.required_witnesses.scripts.tbl().contains_key(h) && #[trigger] b.required_witnesses.scripts.tbl()[h].contains_key(i)
+        ==> b.inputs.m().contains_key(i) && b.inputs.m()[i].1 == Some(h)
+}
